@@ -351,6 +351,8 @@ def jobs(tier):
         J.append(Job(f'MultipleLikelihoodPosterior.gradient:sum_over_all_densities:{cfg}', lambda c, cfg=cfg: multiple_likelihood_posterior(c, cfg), 'Pbox',
                      [f'{D}._joint_distribution:MultipleLikelihoodPosterior.gradient', 'cuqi.likelihood._likelihood:UserDefinedLikelihood.gradient'], rtol=1e-4, timeout=300))
     # gradients of the Markov-random-field priors through the difference operators, every boundary condition (contracts live with C20)
+    from contracts import C18 as _c18
+    J += [j for j in _c18.jobs(tier) if j.id.startswith('PDEModel')]          # gradient dispatch of PDE-based models through the PDE's Jacobian / gradient hook (contracts live with C18)
     from contracts import C20 as _c20
     J += [j for j in _c20.jobs(tier) if '.gradient:' in j.id]
     return J
